@@ -51,7 +51,7 @@ func init() {
 	hx.Register(&hx.Stream{Name: "c08", Gen: genC08, Run: runC08})
 	hx.Register(&hx.Stream{Name: "c08budget", Gen: genC06, Run: runC06})
 	hx.Register(&hx.Stream{Name: "c08par", Gen: genC08par, Run: runC08par})
-	hx.Register(&hx.Stream{Name: "c08clear", Gen: genC08clear, Run: runC08clear})
+	hx.Register(&hx.Stream{Name: "c08clear", Gen: genC08clear, Run: runC08clear, Shrink: shrinkC08Clear, Describe: describeC08Clear})
 }
 
 type sbStep struct {
